@@ -3,3 +3,4 @@ import H4.Props.C05
 import H4.Props.C06
 import H4.Props.C16
 import H4.Props.C13Atom
+import H4.Props.C04Chunk
